@@ -120,7 +120,7 @@ func (s *store) peers() []string {
 	if s.raftState == nil {
 		return nil
 	}
-	if s.leader() == "" {
+	if s.leaderLocked() == "" {
 		return nil
 	}
 	peers, err := s.raftState.peers()
@@ -246,6 +246,12 @@ func (s *store) isLeader() bool {
 func (s *store) leader() string {
 	s.mu.RLock()
 	defer s.mu.RUnlock()
+	return s.leaderLocked()
+}
+
+// leaderLocked is leader for callers that already hold s.mu: the mutex is
+// not re-entrant, a second read lock deadlocks with a waiting writer.
+func (s *store) leaderLocked() string {
 	if s.raftState == nil || s.raftState.raft == nil {
 		return ""
 	}
